@@ -94,6 +94,7 @@ func IDs() Spec {
 	evs = append(evs,
 		proj(A, 0, ""), proj(A, 0, "dup"), proj(A, -1, ""), proj(B, -1, "x"), proj(D, 0, ""),
 		batch(A, 0, 2020), batch(A, 0, 1969), batch(A, -1, 2021), batch(B, -1, 2021), batch(D, 0, 2020),
+		batch(A, 0, 999), batch(A, -1, 1), // years of fewer than four digits ("all valid dates")
 	)
 	evs = append(evs, E{Name: "BridgeReceive(A,class#0,new-contract)", Make: func(pre *chain.Snapshot) *explore.Action {
 		cid := kthClass(pre, 0)
@@ -116,6 +117,13 @@ func IDs() Spec {
 			return nil
 		}
 		return Sell(B, pre.Batches[0].Denom, "1", coin("uregen", 2), true, nil)
+	}})
+	// one message selling the first and the last batch (possibly of different credit types) for the same denom
+	evs = append(evs, E{Name: "Sell(B,batch#0+batch#-1,same-denom)", Make: func(pre *chain.Snapshot) *explore.Action {
+		if len(pre.Batches) < 2 {
+			return nil
+		}
+		return SellN(B, "batch#0+batch#-1", SO(pre.Batches[0].Denom, "1", coin("uregen", 2), true, nil), SO(pre.Batches[len(pre.Batches)-1].Denom, "0.5", coin("uregen", 3), true, nil))
 	}})
 	evs = append(evs, E{Name: "Put(B,basket#0,batch#0)", Make: func(pre *chain.Snapshot) *explore.Action {
 		if len(pre.Batches) == 0 || len(pre.Baskets) == 0 {
